@@ -95,7 +95,7 @@ impl Shrinkable for C18Case {
     }
     fn simplifications(&self) -> Vec<Self> {
         let mut v = Vec::new();
-        let mut push = |f: &dyn Fn(&mut C18Case), v: &mut Vec<C18Case>| {
+        let push = |f: &dyn Fn(&mut C18Case), v: &mut Vec<C18Case>| {
             let mut c = self.clone();
             f(&mut c);
             if serde_json::to_string(&c).ok() != serde_json::to_string(self).ok() {
